@@ -14,6 +14,7 @@ import RtcModel.Lemmas.SctpFrag
 import RtcModel.Lemmas.SctpEndpoint
 import RtcModel.Lemmas.SctpGap
 import RtcModel.Lemmas.SctpSend
+import RtcModel.Lemmas.SctpStale
 
 namespace RtcModel.Theorems.C01
 open RtcModel.Sctp RtcModel.Generated
@@ -95,6 +96,48 @@ theorem tsn_layer (cs : List TxChan) (sid : UInt16) (ppid : UInt32) (hp : ppid.t
         have : j = k := u32_off_inj tsn0 j k (by omega) (by omega) (hje.symm.trans heq)
         omega
     · omega
+
+/-- **process_never_fails** (round 2): `process_data_payload` returns `Ok` for every chunk — user
+data on a known or unknown stream, DCEP fragments, malformed DCEP. (Before fixes e14ef52 / 549207d a
+DCEP chunk that `handle_dcep` could not parse made `handle_data` return before storing the
+cumulative TSN: the chunk was retransmitted for ever and every channel stalled.) -/
+theorem process_never_fails (pl : Pl) (c : DChunk) : (procPayload pl c).2 = true := procPayload_ok pl c
+
+/-- **tsn_layer_any_stream** (round 2): the TSN layer for an *arbitrary* chunk stream — any mix of
+channels, PPIDs, DCEP OPEN / ACK fragments, chunks for unknown streams, well-formed or not — with
+consecutive TSNs from `tsn0`: after any arrival history (loss, duplication, reordering, delay) the
+payload layer has processed exactly the first `k` chunks, in order, once; the cumulative TSN is
+`tsn0 − 1 + k`; and `k` is the whole stream once every chunk has arrived. -/
+theorem tsn_layer_any_stream (chunks : List DChunk) (tsn0 : UInt32)
+    (hts : ∀ i (h : i < chunks.length), chunks[i].tsn = tsn0 + UInt32.ofNat i)
+    (hlen : chunks.length < 2147483648) (s0 : Rx) (hcum : s0.cum = tsn0 - 1) (hrq : s0.rq = [])
+    (arr : List (Fin chunks.length)) :
+    ∃ k, k ≤ chunks.length ∧
+      (arr.foldl (fun s i => handleData s chunks[i]) s0).pl = plRun procPayload s0.pl (chunks.take k) ∧
+      (arr.foldl (fun s i => handleData s chunks[i]) s0).cum = tsn0 + UInt32.ofNat k - 1 ∧
+      ((∀ i : Fin chunks.length, i ∈ arr) → k = chunks.length) := by
+  have hok : ∀ pl c, c ∈ chunks → (procPayload pl c).2 = true := fun pl c _ => procPayload_ok pl c
+  have inv0 : Inv procPayload chunks tsn0 s0.pl 0 s0 :=
+    ⟨Nat.zero_le _, by rw [hcum, u32_add_zero], by simp, by rw [hrq]; intro e he; simp at he⟩
+  obtain ⟨k, _, inv, hseen⟩ := handleData_fold procPayload _ tsn0 s0.pl hts hlen hok arr 0 s0 [] inv0
+    (by intro i hi; simp at hi)
+  refine ⟨k, inv.hk, inv.pl, inv.cum, ?_⟩
+  intro hall
+  have hk := inv.hk
+  by_cases hlt : k < chunks.length
+  · exfalso
+    have hmem : k ∈ [] ++ arr.map (·.val) := by
+      simp only [List.nil_append, List.mem_map]
+      exact ⟨⟨k, hlt⟩, hall ⟨k, hlt⟩, rfl⟩
+    obtain ⟨_, hh⟩ := hseen k hmem
+    cases hh with
+    | inl h => omega
+    | inr h =>
+      obtain ⟨e, he, heq⟩ := h
+      obtain ⟨j, hj, hjl, hje, _⟩ := inv.rq e he
+      have : j = k := u32_off_inj tsn0 j k (by omega) (by omega) (hje.symm.trans heq)
+      omega
+  · omega
 
 /-- **recv_prefix** (safety): for every workload `msgs` on an ordered channel, every initial TSN
 (wrap-around included), every arrival history of its DATA chunks — arbitrary loss, duplication,
@@ -226,6 +269,57 @@ theorem no_loss_e2e (proc : Proc) (chunks : List DChunk) (tsn0 : UInt32) (pl0 : 
       · have := (u32_eq_zero _).mp h0; omega
       · rw [hn]; show _ < 2147483648; omega
     simp [i32NonPos, hpos] at hcov
+
+/-- **stale_sack_frees_only_held**: *whenever* it reaches the sender — at once, or overtaken by any
+number of newer SACKs and after any further arrivals `later` at the receiver — a SACK built from a
+receiver state reached by some arrival history makes `apply_sack_to_sent_queue` drop a record from
+the sent queue, or mark it `acked` (payload freed, never retransmitted again), only if the
+receiver has processed that chunk or still holds it in its receive queue. `q` is any sent queue
+(whatever earlier SACKs did to it); the only premise on it is that the record in question was not
+already marked. The gap-block offsets are applied relative to the SACK's own cumulative TSN — a
+sender that re-based them on a newer cumulative TSN would falsify this (the `hsack` stream runs the
+real `handle_sack` on such histories with this statement as oracle). -/
+theorem stale_sack_frees_only_held (proc : Proc) (chunks : List DChunk) (tsn0 : UInt32) (pl0 : Pl)
+    (hts : ∀ i (h : i < chunks.length), chunks[i].tsn = tsn0 + UInt32.ofNat i)
+    (hlen : chunks.length < 2147483648) (hok : ∀ pl c, c ∈ chunks → (proc pl c).2 = true)
+    (k : Nat) (s : Rx) (inv : Inv proc chunks tsn0 pl0 k s) (later : List (Fin chunks.length))
+    (q : List SRec) (now : Nat) (cm : Bool) (mx : Nat)
+    (i : Nat) (hi : i < chunks.length) (hin : ∃ r ∈ q, r.tsn = tsn0 + UInt32.ofNat i)
+    (hun : ∀ r ∈ q, r.tsn = tsn0 + UInt32.ofNat i → r.acked = false)
+    (hfreed : (tsn0 + UInt32.ofNat i) ∉ (applySack q (createSack s).1.cum (createSack s).1.gaps now cm mx).1.map (·.tsn) ∨
+      ∃ x ∈ (applySack q (createSack s).1.cum (createSack s).1.gaps now cm mx).1,
+        x.tsn = tsn0 + UInt32.ofNat i ∧ x.acked = true) :
+    ∃ k', Inv proc chunks tsn0 pl0 k' (later.foldl (fun s j => handleDataWith proc s chunks[j]) s) ∧
+      (i < k' ∨ ∃ e ∈ (later.foldl (fun s j => handleDataWith proc s chunks[j]) s).rq, e.1 = tsn0 + UInt32.ofNat i) := by
+  -- at the time the SACK was built the receiver had processed the chunk or held it
+  have hseen : Seen chunks.length tsn0 [i] k s := by
+    intro j hj
+    have : j = i := by simpa using hj
+    subst this
+    refine ⟨hi, ?_⟩
+    cases hfreed with
+    | inl hgone =>
+      obtain ⟨r, hr, htsn⟩ := hin
+      left
+      exact no_loss_e2e proc chunks tsn0 pl0 k s inv hlen q now cm mx r hr j hi htsn (by rw [htsn]; exact hgone)
+    | inr hack =>
+      obtain ⟨x, hx, hxt, hxa⟩ := hack
+      cases applySack_acked_named q _ _ now cm mx x hx hxa with
+      | inl h =>
+        obtain ⟨r, hr, h1, h2⟩ := h
+        have := hun r hr (h1.trans hxt)
+        rw [this] at h2; cases h2
+      | inr h =>
+        obtain ⟨g, hg, hsel⟩ := h
+        right
+        have hheld : x.tsn ∈ s.rq.map (·.1) := by
+          have hg' : g ∈ gapBlocks (s.rq.map (·.1)) s.cum := by simpa [createSack] using hg
+          have hsel' : selects s.cum g x.tsn := by simpa [createSack] using hsel
+          exact gapBlocks_sel _ _ g hg' _ hsel'
+        obtain ⟨e, he, heq⟩ := List.mem_map.mp hheld
+        exact ⟨e, he, heq.trans hxt⟩
+  obtain ⟨k', _, inv', hs'⟩ := handleData_fold proc chunks tsn0 pl0 hts hlen hok later k s [i] inv hseen
+  exact ⟨k', inv', (hs' i (by simp)).2⟩
 
 /-! ### liveness (partial: abstract retransmission rounds, no clock) -/
 
